@@ -112,7 +112,13 @@ where
     weights.sort_unstable_by(crate::partial_cmp);
 
     let sum: T = weights.iter().map(|(weight, _idx)| *weight).sum();
-    let tolerance = T::from_f64(sum.to_f64().unwrap() * tolerance).unwrap();
+    let sum_f64 = sum.to_f64().unwrap();
+    let bound = sum_f64 * tolerance;
+    // The sum rounded to a float can lie just above the largest value of the
+    // weight type, and so can the bound. No load difference exceeds the sum.
+    let tolerance = T::from_f64(bound)
+        .or_else(|| (bound >= sum_f64).then_some(sum))
+        .unwrap();
 
     let mut steps = Vec::new();
 
